@@ -468,7 +468,6 @@ func init() {
 	reg("(*github.com/rcrowley/go-metrics.StandardRegistry).UnregisterAll", func(in *Interp, fr *frame, a []Value) Value { return nil })
 
 	// runtime
-	reg("regexp.MustCompile", func(in *Interp, fr *frame, a []Value) Value { return &Obj{Kind: "opaque"} })
 	reg("(runtime.errorString).Error", func(in *Interp, fr *frame, a []Value) Value { return a[0] })
 	reg("runtime.SetFinalizer", func(in *Interp, fr *frame, a []Value) Value { return nil })
 	reg("runtime.KeepAlive", func(in *Interp, fr *frame, a []Value) Value { return nil })
